@@ -4,7 +4,7 @@
    scheduled sequence number; masked slots write nothing).  That recording has no feedback into the execution holds by construction in a functional
    model; for the code it is decided by the relational runs of the harness (every record-setting combination gives the same execution). *)
 From Coq Require Import List Arith ZArith Bool.
-From Rex Require Import KahnL AsyncModel2 AsyncStable ConflInv RexDet AsyncLaws AsyncLaws2 AsyncLaws3 AsyncLaws4.
+From Rex Require Import KahnL AsyncModel2 AsyncStable ConflInv RexDet AsyncLaws AsyncLaws2 AsyncLaws3 AsyncLaws4 CompiledModel CompiledOnce.
 
 (* row k of node n = the record assembled from the k-th start token (seq, ts_start, delay), the state before the k-th application and the windows it received *)
 Theorem C13_rows_law : forall (G : cfg) (s : state) (n k : nat), reach G s -> (n < NN G)%nat -> (k < length (rows_of s n))%nat -> nth_error (rows_of s n) k = row_of G (hfun tok local s) n k.
@@ -12,12 +12,22 @@ Proof. exact @rows_law. Qed.
 Print Assumptions C13_rows_law.
 
 (* the state recorded before step k+1 is the state returned by step k *)
-Theorem C13_record_state_chain : forall (G : cfg) (s : state) (n k : nat) (r r' : row), reach G s -> (n < NN G)%nat -> nth_error (rows_of s n) k = Some r -> nth_error (rows_of s n) (S k) = Some r' -> r_state r' = r_out r.
+Theorem C13_record_state_chain : forall (G : cfg) (s : state) (n k : nat) (r r' : AsyncModel2.row), reach G s -> (n < NN G)%nat -> nth_error (rows_of s n) k = Some r -> nth_error (rows_of s n) (S k) = Some r' -> r_state r' = r_out r.
 Proof. exact @record_state_chain. Qed.
 Print Assumptions C13_record_state_chain.
 
 (* the record has exactly one row per application of the step function, in order (nothing unexecuted is recorded, nothing executed is missing) *)
-Theorem C13_async_once : forall (G : cfg) (s : state) (n : nat), reach G s -> (n < NN G)%nat -> l_calls (nth (AStep n) (loc tok local s) l0) = map r_seq (rows_of s n) /\ (forall (k : nat) (r : row), nth_error (rows_of s n) k = Some r -> r_seq r = k).
+Theorem C13_async_once : forall (G : cfg) (s : state) (n : nat), reach G s -> (n < NN G)%nat -> l_calls (nth (AStep n) (loc tok local s) l0) = map r_seq (rows_of s n) /\ (forall (k : nat) (r : AsyncModel2.row), nth_error (rows_of s n) k = Some r -> r_seq r = k).
 Proof. exact @async_once. Qed.
 Print Assumptions C13_async_once.
+
+(* compiled runtime: the record is an array indexed by the sequence number, pre-filled with 'never executed' (-1); row k holds the logged row of (node, k) if that step was executed and stays -1 otherwise *)
+Theorem C13_compiled_record_row : forall (Val : Type) (node len : nat) (log : list (row Val)) (k : nat), (k < len)%nat -> (forall r : row Val, In r log -> 0 <= w_seq Val r) -> nth_error (record_of Val node len log) k = Some (find (fun r : row Val => (w_node Val r =? node)%nat && (w_seq Val r =? Z.of_nat k)) (rev log)).
+Proof. exact @record_row. Qed.
+Print Assumptions C13_compiled_record_row.
+
+(* and the logged rows are exactly the scheduled cells that were run *)
+Theorem C13_compiled_log_is_schedule : forall (I : inst) (Val : Type) (f : nat -> Z -> Z -> Val -> list (list (Z * Z * Z * Val)) -> Val) (vi vd : nat -> Val) (sizes : list Z) (p0 n : nat), map (row_key Val) (r_log Val (rollout I Val f vi vd sizes p0 n)) = map todo_key (concat (flat_map (phases_of I) (seq p0 n))).
+Proof. exact @compiled_once. Qed.
+Print Assumptions C13_compiled_log_is_schedule.
 
